@@ -243,7 +243,7 @@ static int apply (int op)
   } else if (op < nsizes) {
     OrcCode *code = orc_code_new ();
     int k, sz = sizes[op];
-    aligned = (sz + 15) & ~15;
+    aligned = ((sz > 0 ? sz : 1) + 15) & ~15;	/* a request for 0 bytes (a code object of the C back end) still owns a minimal chunk */
     for (i = 0; i < nchunks; i++) if (!chunks[i].used && chunks[i].size >= aligned) fits = 1;
     orc_code_allocate_codemem (code, sz);
     if (!code->chunk) { snprintf (vmsg, sizeof vmsg, "allocation of %d bytes failed", sz); return 5; }
